@@ -25,6 +25,10 @@ CLAIMS = {
          "not decided: everything quantified over interleavings (exclusivity, connsCount bound, waiter hand-off, idle reaper) and wall-clock bounds; analysed in abstract mode: calls without ghost-relevant contracts havoc all real state; the stream-close callback's own disposal is not followed", "3 C10"),
  "C18": ("sequential slice only: in Server.Serve, when Core.IsRunning() is observed false at the exit check after the handler, Connection: close is on the response before writeResponse is called and the loop does not start another iteration",
          "not decided: everything quantified over schedules and time (in-flight completion, listener close, wait bound, Shutdown's hook fan-out); this is a necessary condition of the property, not the property", "3 C18"),
+ "C08": ("slice: ParseByteRange, for every header value and every contentLength >= 0: on success 0 <= start <= end < contentLength (so Content-Range and the body length derived from it are consistent) and the value starts with \"bytes=\"; no panic for any input",
+         "not decided: the RFC 7233 value of each range form (needs the digit-value function through two nested calls; not yet stated), the file-system side (which file is opened, caching, compression, symlinks), handleRequest's use of the range", "3 C08"),
+ "C14": ("fixed-length streamed bodies against an abstract reader (ghost wire position): bodyStream.Read never takes more bytes off the wire than the body still has and returns n <= len(p); bodyStream.skipRest on success leaves the wire exactly at the first byte after the body; chunked bodies: a chunk-size line is parsed only when no chunk data is pending (in Read and in skipRest) and chunkLeft never goes negative; ParseChunkSize returns a non-negative size; ReadHexInt returns the value of 1..15 hex digits with maximal munch",
+         "assumed: the network.Reader / io.Reader / bytes.Reader contracts (C13 is not applicable, so the reader is a model), ReadTrailer and SkipTrailer frames (used at call sites, not verified); partial correctness (nosafety: bounds are assumed in these two functions); not decided: that reads do not block beyond the body, ReadBodyWithStreaming's prefetch, netpoll", "3 C14"),
 }
 NA = {
  "C06": "recursive pointer trie with back-pointers, goto/closure backtracking and a recursive priority-match specification; no contract within reach of this tool chain states or decides priority dispatch",
